@@ -31,7 +31,7 @@ EXCS = [['ValueError', ['x']], ['KeyError', ['k']], ['Boom', ['a', 1]], ['Boom2'
         ['RuntimeError', ['a', 'b', 'c']], ['StopIteration', [5]], ['TimeoutError', ['late']], ['ConnectionResetError', [104, 'reset']],
         # classes whose constructor rejects a lone str with something other than TypeError (validating / looking up / reading attributes)
         ['StatusError', [404]], ['CodeError', ['E2']], ['RespError', [503, 'busy']]]
-EXITS = [None, 0, 1, 3, 'bye']
+EXITS = [None, 0, 1, 3, 'bye', '', 0.0, [], False, True, {}]  # only None and the integer 0 mean success
 ACCESSORS = ['join', 'result', 'exception', 'done', 'exitcode', 'wait', 'as_completed']
 
 
@@ -274,7 +274,8 @@ def run_case(case):
             ref = targets.make_exc(ending[1], _exc_args(ending[1:]), ending[3] if len(ending) > 3 else None)
             expect = ('error', type(ref).__name__, list(ref.args))
         elif ending[0] == 'exit':
-            expect = ('value', None) if ending[1] in (None, 0) else ('error', 'SystemExit', [ending[1]])
+            clean = ending[1] is None or (isinstance(ending[1], int) and ending[1] == 0)
+            expect = ('value', None) if clean else ('error', 'SystemExit', [ending[1]])
         elif ending[0] == 'return-unpicklable' and not is_proc:
             expect = ('consistent',)  # a thread can return anything
         elif ending[0] in ('return-unpicklable', 'os-exit', 'raise-unrebuildable'):
@@ -335,12 +336,12 @@ def run_case(case):
                 bad('accessors-disagree', f'join/result/exception report different errors: {[(n, repr(e)) for n, e in errs]}')
         if is_proc and isinstance(ec, int):
             want = None
-            if ending[0] in ('return', 'no-target') or (ending[0] == 'exit' and ending[1] in (None, 0)):
+            if ending[0] in ('return', 'no-target') or (ending[0] == 'exit' and (ending[1] is None or (isinstance(ending[1], int) and ending[1] == 0))):
                 want = 0
             elif ending[0] in ('raise', 'raise-unrebuildable'):
                 want = 1
             elif ending[0] == 'exit':
-                want = ending[1] if isinstance(ending[1], int) else 1
+                want = int(ending[1]) if isinstance(ending[1], int) else 1
             elif ending[0] == 'terminate':
                 want = -15
             elif ending[0] == 'os-exit':
